@@ -32,6 +32,15 @@ pub enum Shape {
 }
 
 impl Shape {
+    /// contains a wrapper around a private field (Basis2 / Basis3)
+    pub fn has_wrap(&self) -> bool {
+        match self {
+            Shape::Num(_) => false,
+            Shape::Rec(f) => f.iter().any(|(_, s)| s.has_wrap()),
+            Shape::Bare(s) => s.has_wrap(),
+            Shape::Wrap(_) => true,
+        }
+    }
     pub fn n_leaves(&self) -> usize {
         match self {
             Shape::Num(_) => 1,
@@ -251,6 +260,17 @@ macro_rules! angle {
 angle!("Rad", Rad, [f32, f64]);
 angle!("Deg", Deg, [f32, f64]);
 
+/// Number of extra multiplications for a Basis value: mostly a handful, one time in four tens of
+/// thousands (minutes of accumulated per-frame rotation).
+pub fn drift_count(leaf: u64) -> usize {
+    let d = (leaf & 0xffff) as usize;
+    if d % 4 == 0 {
+        d
+    } else {
+        d % 16
+    }
+}
+
 macro_rules! basis {
     ($($S:ty),+) => {
         $(
@@ -263,13 +283,23 @@ macro_rules! basis {
             }
             fn gen_kinds(out: &mut Vec<(Kind, GenClass)>) {
                 out.push((<$S as Scal>::KIND, GenClass::Moderate));
+                // how many further rotations are multiplied on: accumulated rounding makes the
+                // matrix drift away from orthonormal, the way a long-running animation does
+                out.push((Kind::U16, GenClass::Any));
             }
             fn identity(out: &mut Vec<i64>) {
+                out.push(0);
                 out.push(0);
             }
             fn build(c: &mut Cur) -> Self {
                 let a = <$S as Subject>::build(c);
-                Rotation2::from_angle(Rad(a))
+                let n = drift_count(c.next());
+                let mut rot: Basis2<$S> = Rotation2::from_angle(Rad(a));
+                let step: Basis2<$S> = Rotation2::from_angle(Rad(0.0123 as $S));
+                for _ in 0..n {
+                    rot = rot * step;
+                }
+                rot
             }
             fn read(&self, out: &mut Vec<u64>) {
                 let m: &Matrix2<$S> = self.as_ref();
@@ -291,16 +321,23 @@ macro_rules! basis {
                 for _ in 0..4 {
                     out.push((<$S as Scal>::KIND, GenClass::Moderate));
                 }
+                out.push((Kind::U16, GenClass::Any));
             }
             fn identity(out: &mut Vec<i64>) {
-                out.extend_from_slice(&[1, 0, 0, 0]);
+                out.extend_from_slice(&[1, 0, 0, 0, 0]);
             }
             fn build(c: &mut Cur) -> Self {
                 let s = <$S as Subject>::build(c);
                 let x = <$S as Subject>::build(c);
                 let y = <$S as Subject>::build(c);
                 let z = <$S as Subject>::build(c);
-                Basis3::from_quaternion(&Quaternion::new(s, x, y, z))
+                let n = drift_count(c.next());
+                let mut rot = Basis3::from_quaternion(&Quaternion::new(s, x, y, z));
+                let step: Basis3<$S> = Rotation3::from_angle_z(Rad(0.0123 as $S));
+                for _ in 0..n {
+                    rot = rot * step;
+                }
+                rot
             }
             fn read(&self, out: &mut Vec<u64>) {
                 let m: &Matrix3<$S> = self.as_ref();
